@@ -91,6 +91,11 @@ def selector_witness(res):
             res.violation("C19.3.selector-all-runtimes", f, "<selector>", comp, line, "with OpenMP, Specx and StarPU all enabled the selector header does not build: " + msg[:300])
 
 
+def tbf_result(pid):
+    import tbf
+    return tbf.Result(pid)
+
+
 def ordering_agreement(res):
     """C19.4: what distinguishes the documented configurations at run time is the ordering class; the non-default ones can only satisfy
     exactly-once "like the default configuration does" if their list builders are the default's (rule C11.3: Hilbert vs Morton atom by atom,
@@ -141,6 +146,16 @@ def run(res, tier):
     res.floor("C19.1", len(runs), 20, "witness compilations")
     selector_witness(res)      # one compilation; in both tiers
     ordering_agreement(res)
+    # the configurations with a data type wider than the coordinate type: nothing narrows a particle's value implicitly on the way to its leaf
+    # or on the copy path (witness and rule of C06.2, same compilation)
+    import c06
+    sub = tbf_result("C06")
+    c06.narrowing(sub, tier)
+    res.rule("C19.5 data type != coordinate type: the -Wconversion witness <real=float, data=double / long double> has no floating narrowing under src/core, src/containers or inside the ordering classes (rule C06.2)")
+    for i in sub.instances:
+        res.instance("C19.5.mixed-types", i["key"], i["at"], i["detail"])
+    for v in sub.violations:
+        res.violation("C19.5.mixed-types", v["file"], v["function"], v["key"], v["line"], v["msg"])
     res.explanation = ("compile witnesses: each documented template configuration is turned into a TU that constructs the tree, executes, rebuilds and exports; "
                        "the compiler's acceptance is the proof obligation. %d obligations, %d discharged. Include guards: %d headers."
                        % (res.obligations, res.discharged, len([i for i in res.instances if i['rule'] == 'C19.2.include-guard'])))
